@@ -182,3 +182,105 @@ package cipher
 //@   ensures err == nil && typeis(result0, ccm) ==> ccmok(as(result0, ccm)) && as(result0, ccm).nonceSize == nonceSize && as(result0, ccm).tagSize == tagSize
 //@   heapnonnil
 //@   modifies everything
+
+// ---- BC mode (GB/T 17964): C_i = E_K(P_i xor F_i), F_{i+1} = F_i xor C_i, F_1 = IV. The recurrence
+// is asserted at every iteration (with the values the operands have at that point), together with
+// memory safety, the frame, termination and the chaining value kept in x.iv for the next call.
+//@ func (*bcEncrypter).CryptBlocks property C03
+//@   config bs in 8,16
+//@   requires x.b != nil && BS(id(x.b)) == bs && x.blockSize == bs && len(x.iv) == bs && !sameobj(dst, x.iv) && !sameobj(src, x.iv)
+//@   maypanic
+//@   let K := id(x.b)
+//@   let L := len(src)
+//@   bind before call XORBytes#1: FB := arr(iv)
+//@   bind before call XORBytes#1: FO := offof(iv)
+//@   bind before call XORBytes#1: PB := arr(src)
+//@   bind before call XORBytes#1: PO := offof(src)
+//@   bind before call Encrypt#1: XB := arr(dst)
+//@   bind before call Encrypt#1: XO := offof(dst)
+//@   assert after call XORBytes#1: forall i :: 0 <= i && i < bs ==> dst[i] == bxor8(PB[PO + i], FB[FO + i])
+//@   assert after call Encrypt#1: forall i :: 0 <= i && i < bs ==> dst[i] == ENC(K, BLK(XB, XO, bs))[i]
+//@   assert after call XORBytes#2: forall i :: 0 <= i && i < bs ==> iv[i] == bxor8(FB[FO + i], dst[i])
+//@   assert after call XORBytes#2: sameslice(iv, x.iv)
+//@   loop 1 let D0 := dst
+//@   loop 1 let S0 := src
+//@   loop 1 invariant sameobj(src, S0) && offof(src) + len(src) == offof(S0) + len(S0) && offof(S0) <= offof(src) && len(src) % bs == 0
+//@   loop 1 invariant sameobj(dst, D0) && offof(dst) - offof(D0) == offof(src) - offof(S0) && len(dst) == len(D0) - (offof(dst) - offof(D0)) && len(D0) >= len(S0)
+//@   loop 1 invariant sameslice(iv, x.iv) && len(iv) == bs && x.blockSize == bs && x.b != nil && id(x.b) == K
+//@   loop 1 invariant onlychanged(D0[:len(S0)]) && onlychanged(old(x.iv))
+//@   loop 1 decreases len(src)
+//@   modifies dst[0..len(src)], x.iv[0..len(x.iv)]
+
+// BC decryption: P_i = D_K(C_i) xor F_i, F_{i+1} = F_i xor C_i (C_i as received, also in place)
+//@ func (*bcDecrypter).CryptBlocks property C03
+//@   config bs in 8,16
+//@   requires x.b != nil && BS(id(x.b)) == bs && x.blockSize == bs && len(x.iv) == bs && !sameobj(dst, x.iv) && !sameobj(src, x.iv)
+//@   maypanic
+//@   let K := id(x.b)
+//@   bind before call XORBytes#1: FB := arr(iv)
+//@   bind before call XORBytes#1: FO := offof(iv)
+//@   bind before call XORBytes#1: CB := arr(src)
+//@   bind before call XORBytes#1: CO := offof(src)
+//@   bind after call Decrypt#1: YB := arr(dst)
+//@   bind after call Decrypt#1: YO := offof(dst)
+//@   assert after call XORBytes#1: forall i :: 0 <= i && i < bs ==> nextIV[i] == bxor8(FB[FO + i], CB[CO + i])
+//@   assert after call Decrypt#1: forall i :: 0 <= i && i < bs ==> dst[i] == DEC(K, BLK(CB, CO, bs))[i]
+//@   assert after call XORBytes#2: forall i :: 0 <= i && i < bs ==> dst[i] == bxor8(YB[YO + i], FB[FO + i])
+//@   assert after call copy#1: forall i :: 0 <= i && i < bs ==> iv[i] == bxor8(FB[FO + i], CB[CO + i])
+//@   loop 1 let D0 := dst
+//@   loop 1 let S0 := src
+//@   loop 1 invariant sameobj(src, S0) && offof(src) + len(src) == offof(S0) + len(S0) && offof(S0) <= offof(src) && len(src) % bs == 0
+//@   loop 1 invariant sameobj(dst, D0) && offof(dst) - offof(D0) == offof(src) - offof(S0) && len(dst) == len(D0) - (offof(dst) - offof(D0)) && len(D0) >= len(S0)
+//@   loop 1 invariant sameslice(iv, x.iv) && len(iv) == bs && x.blockSize == bs && x.b != nil && id(x.b) == K && len(nextIV) == bs && objof(nextIV) < 0
+//@   loop 1 invariant onlychanged(D0[:len(S0)]) && onlychanged(old(x.iv))
+//@   loop 1 decreases len(src)
+//@   modifies dst[0..len(src)], x.iv[0..len(x.iv)]
+
+// ---- OFBNLF mode (GB/T 17964): K_i = E_K(K_{i-1}), K_0 = IV, C_i = E_{K_i}(P_i): asserted per
+// iteration; the block cipher factory follows the cipherCreator contract
+//@ func (*ofbnlfEncrypter).CryptBlocks property C03
+//@   requires x.b != nil && BS(id(x.b)) == 16 && FBS() == 16 && x.blockSize == 16 && len(x.iv) == 16 && x.cipherFunc != nil && !sameobj(dst, x.iv) && !sameobj(src, x.iv)
+//@   fnspec cipherFunc: std:cipherCreator
+//@   maypanic
+//@   let K := id(x.b)
+//@   bind before call Encrypt#1: VB := arr(iv)
+//@   bind before call Encrypt#1: VO := offof(iv)
+//@   bind before call Encrypt#2: PB := arr(src)
+//@   bind before call Encrypt#2: PO := offof(src)
+//@   bind before call Encrypt#2: KB := arr(k)
+//@   bind before call Encrypt#2: KO := offof(k)
+//@   assert after call Encrypt#1: forall i :: 0 <= i && i < 16 ==> k[i] == ENC(K, BLK(VB, VO, 16))[i]
+//@   assert after call Encrypt#2: forall i :: 0 <= i && i < 16 ==> dst[i] == ENC(CIPHID(KB, KO, 16), BLK(PB, PO, 16))[i]
+//@   assert after call copy#1: forall i :: 0 <= i && i < 16 ==> iv[i] == KB[KO + i]
+//@   loop 1 let D0 := dst
+//@   loop 1 let S0 := src
+//@   loop 1 invariant sameobj(src, S0) && offof(src) + len(src) == offof(S0) + len(S0) && offof(S0) <= offof(src) && len(src) % 16 == 0
+//@   loop 1 invariant sameobj(dst, D0) && offof(dst) - offof(D0) == offof(src) - offof(S0) && len(dst) == len(D0) - (offof(dst) - offof(D0)) && len(D0) >= len(S0)
+//@   loop 1 invariant sameslice(iv, x.iv) && len(iv) == 16 && x.blockSize == 16 && x.b != nil && id(x.b) == K && len(k) == 16 && objof(k) < 0 && x.cipherFunc != nil
+//@   loop 1 invariant onlychanged(D0[:len(S0)]) && onlychanged(old(x.iv))
+//@   loop 1 decreases len(src)
+//@   modifies dst[0..len(src)], x.iv[0..len(x.iv)]
+
+// decryption: P_i = D_{K_i}(C_i) with the same key stream K_i
+//@ func (*ofbnlfDecrypter).CryptBlocks property C03
+//@   requires x.b != nil && BS(id(x.b)) == 16 && FBS() == 16 && x.blockSize == 16 && len(x.iv) == 16 && x.cipherFunc != nil && !sameobj(dst, x.iv) && !sameobj(src, x.iv)
+//@   fnspec cipherFunc: std:cipherCreator
+//@   maypanic
+//@   let K := id(x.b)
+//@   bind before call Encrypt#1: VB := arr(iv)
+//@   bind before call Encrypt#1: VO := offof(iv)
+//@   bind before call Decrypt#1: PB := arr(src)
+//@   bind before call Decrypt#1: PO := offof(src)
+//@   bind before call Decrypt#1: KB := arr(k)
+//@   bind before call Decrypt#1: KO := offof(k)
+//@   assert after call Encrypt#1: forall i :: 0 <= i && i < 16 ==> k[i] == ENC(K, BLK(VB, VO, 16))[i]
+//@   assert after call Decrypt#1: forall i :: 0 <= i && i < 16 ==> dst[i] == DEC(CIPHID(KB, KO, 16), BLK(PB, PO, 16))[i]
+//@   assert after call copy#1: forall i :: 0 <= i && i < 16 ==> iv[i] == KB[KO + i]
+//@   loop 1 let D0 := dst
+//@   loop 1 let S0 := src
+//@   loop 1 invariant sameobj(src, S0) && offof(src) + len(src) == offof(S0) + len(S0) && offof(S0) <= offof(src) && len(src) % 16 == 0
+//@   loop 1 invariant sameobj(dst, D0) && offof(dst) - offof(D0) == offof(src) - offof(S0) && len(dst) == len(D0) - (offof(dst) - offof(D0)) && len(D0) >= len(S0)
+//@   loop 1 invariant sameslice(iv, x.iv) && len(iv) == 16 && x.blockSize == 16 && x.b != nil && id(x.b) == K && len(k) == 16 && objof(k) < 0 && x.cipherFunc != nil
+//@   loop 1 invariant onlychanged(D0[:len(S0)]) && onlychanged(old(x.iv))
+//@   loop 1 decreases len(src)
+//@   modifies dst[0..len(src)], x.iv[0..len(x.iv)]
